@@ -238,3 +238,86 @@ def build_lang(spec_dict):
         lg = LanguageGraph(copy.deepcopy(spec_dict))
         lcf = LanguageClassesFactory(lg)
     return lg, lcf
+
+
+# ------------------------------------------------------------------ L_INH
+MITRE = {'mitre': 'T1078'}
+
+
+def L_INH(cs=None):
+    """P <- A <- {G1, G2}, O separate.  cs = (cP, cA, cG1, cG2) selects how each level declares step `s`:
+    0 nothing / 1 `s` without reaches / 2 `s -> t<level>` / 3 `s +> t<level>` (family F_INH); default (2, 3, 0, 1)."""
+    cs = cs or (2, 3, 0, 1)
+    lv = ['P', 'A', 'G1', 'G2']
+
+    def s_decl(i):
+        c = cs[i]
+        if c == 0:
+            return []
+        if c == 1:
+            return [step('s', 'or')]
+        return [step('s', 'or', reaches=[astep('t' + lv[i])], overrides=(c == 2))]
+
+    targets = [step('t' + x, 'or') for x in lv]
+    P = asset('P', abstract=True, variables=[('vv', fld('os'))], steps=targets + s_decl(0) + [
+        step('dP', 'defense', reaches=[astep('tP')], ttc=ENABLED, tags=['hidden'], meta=MITRE),
+        step('viaVar', 'or', reaches=[to(var('vv'), 'tO')]),
+        step('toG1', 'or', reaches=[to(collect(sub('G1', collect(fld('os'), fld('ps'))), fld('os')), 'tO')]),
+    ])
+    A = asset('A', sup='P', steps=s_decl(1) + [
+        step('dA', 'defense', reaches=[astep('tA')], ttc=DISABLED),
+        step('viaVar', 'or', reaches=[to(fld('os'), 'back')], overrides=False),
+        step('timed', 'and', reaches=[astep('tA')], ttc=EXPO, tags=['x', 'y']),
+    ])
+    G1 = asset('G1', sup='A', steps=s_decl(2) + [
+        step('dG', 'defense', reaches=[astep('tG1')], ttc=None),
+        step('ex', 'exist', requires=[fld('os')], reaches=[astep('tG1')]),
+        step('nex', 'notExist', requires=[fld('os1')], reaches=[astep('tG1')]),
+        step('dP', 'defense', reaches=[astep('tG1')], ttc=ENABLED, overrides=False),
+    ])
+    G2 = asset('G2', sup='A', steps=s_decl(3))
+    O = asset('O', steps=[step('tO', 'or'), step('back', 'or', reaches=[to(fld('ps'), 'tP')]),
+                          step('exO', 'exist', requires=[sub('G1', fld('ps'))])], category='C2')
+    assocs = [assoc('L', 'P', 'ps', MANY, 'O', 'os', MANY),
+              assoc('L1', 'P', 'ps1', (0, 1), 'O', 'os1', (1, 1)),
+              assoc('L2', 'A', 'as2', (1, None), 'O', 'os2', (0, 2)),
+              assoc('Dup', 'G1', 'dg1', MANY, 'O', 'do1', MANY),
+              assoc('Dup', 'G2', 'dg2', MANY, 'O', 'do2', MANY)]
+    return spec([P, A, G1, G2, O], assocs, lang_id='verif.linh')
+
+
+INH_SUP = {'P': None, 'A': 'P', 'G1': 'A', 'G2': 'A', 'O': None}
+
+
+def ref_fold(spec_dict, tname):
+    """Attack steps a type exposes, folded root-down as the property text says. Returns {name: declaration dict}
+    with 'reaches' = None or {'stepExpressions': [...]}; the first declaration fixes type/ttc/tags/meta unless overridden by '->'."""
+    by = {a['name']: a for a in spec_dict['assets']}
+    chain = []
+    t = tname
+    while t is not None:
+        chain.append(by[t])
+        t = by[t]['superAsset']
+    chain.reverse()
+    out = {}
+    for a in chain:
+        for st in a['attackSteps']:
+            n = st['name']
+            if n not in out:
+                out[n] = copy.deepcopy(st)
+            elif not st['reaches']:
+                continue
+            elif st['reaches']['overrides']:
+                out[n] = copy.deepcopy(st)
+            else:
+                inh = out[n]['reaches']['stepExpressions'] if out[n]['reaches'] else []
+                out[n]['reaches'] = {'overrides': False if not out[n]['reaches'] else out[n]['reaches']['overrides'],
+                                     'stepExpressions': list(inh) + copy.deepcopy(st['reaches']['stepExpressions'])}
+    return out
+
+
+def rel_for(spec_dict, types):
+    by = {a['name']: a for a in spec_dict['assets']}
+    sup = {n: a['superAsset'] for n, a in by.items()}
+    variables = {n: {v['name']: v['stepExpression'] for v in a['variables']} for n, a in by.items()}
+    return Rel(len(types), list(types), sup, variables)
